@@ -714,10 +714,29 @@ structure RecvCfg where
   patFirst : Bool
 deriving Repr
 
-/-- `time` handed to the responders -/
+/-- number of binary digits of `n` (`int.bit_length`) -/
+def bitLength : Nat → Nat
+  | 0 => 0
+  | n + 1 => Nat.log2 (n + 1) + 1
+
+/-- `float(n)` for a Python int: the nearest binary64, ties to even (exact below 2^53) -/
+def intToDouble (n : Int) : Int :=
+  let m := n.natAbs
+  let bl := bitLength m
+  if bl ≤ 53 then n
+  else
+    let e := bl - 53
+    let q := m / 2 ^ e
+    let r := m % 2 ^ e
+    let half := 2 ^ (e - 1)
+    let q' := if r > half ∨ (r = half ∧ q % 2 = 1) then q + 1 else q
+    let v : Int := (q' * 2 ^ e : Nat)
+    if n < 0 then -v else v
+
+/-- `time` handed to the responders: `float(osctime - offset) * 2**-32` -/
 def deliveryTime (cfg : RecvCfg) : Option Nat → Rat
   | none => cfg.now
-  | some tt => if tt = 1 then cfg.now else (((tt : Int) - cfg.oscOffset : Int) : Rat) / 4294967296
+  | some tt => if tt = 1 then cfg.now else ((intToDouble ((tt : Int) - cfg.oscOffset) : Int) : Rat) / 4294967296
 
 def mkDelivery (cfg : RecvCfg) (sender : Sender) (tm : Option Nat × DMsg) : Delivery :=
   ⟨decodeUtf8 tm.2.addr, tm.2.params, deliveryTime cfg tm.1, sender, cfg.port⟩
